@@ -255,6 +255,27 @@ def main(run):
                     dict(desc, DirectModel=np.asarray(A).tolist(), Iq=np.asarray(B).tolist(), sasview=np.asarray(C).tolist(), bumps=np.asarray(D).tolist())))
             elif np.all(np.isfinite(A)):
                 distinct.add((name, rep))
+            # the same objects edited in place (a GUI or fit changes values between evaluations and keeps the
+            # dispersity settings): new values of every size parameter, same widths / counts / types
+            if not dim2 and worst <= TOL:
+                pars2 = dict(pars)
+                for p in pt.call_parameters:
+                    if p.name in pars2 and p.type == "volume" and p.length == 1 and isinstance(pars2[p.name], float) and pars2[p.name] > 0 and p.name != mult_info.control:
+                        pars2[p.name] = float(min(max(pars2[p.name] * rng.uniform(1.2, 1.7), p.limits[0]), p.limits[1]))
+                try:
+                    for k, v in pars2.items():
+                        if k in sv_pars and not k.endswith(("_pd", "_pd_n", "_pd_nsigma", "_pd_type")) and v != pars[k]:
+                            M.setParam(k, v)
+                    A2 = calc1(**pars2)
+                    C3 = M.evalDistribution(q1)
+                    evals += 2
+                    stats["edited_in_place"] = stats.get("edited_in_place", 0) + 1
+                    if rel(C3, A2) > TOL:
+                        run.add(Finding("C10:agree-edited:%s" % name, "%s: after changing values on the SAME SasviewModel object (dispersity settings kept) it differs from DirectModel by %.3g (relative); first evaluated at %s, then at %s" % (
+                            name, rel(C3, A2), {k: pars[k] for k in pars2 if pars2[k] != pars[k]}, {k: pars2[k] for k in pars2 if pars2[k] != pars[k]}),
+                            dict(desc, edited=pars2, DirectModel=np.asarray(A2).tolist(), sasview=np.asarray(C3).tolist())))
+                except Exception as exc:  # noqa
+                    run.add(Finding("C10:agree:error:%s" % name, "%s: an interface raised %r after an in-place edit" % (name, exc), desc))
             if len(run.coverage["samples"]) < 6:
                 run.sample(dict(model=name, multiplicity=mult, dim=desc["dim"], pars={k: pars[k] for k in list(pars)[:8]}))
             # resolution-bearing data: DirectModel, Iq and bumps (the SasView object has no resolution)
